@@ -298,6 +298,10 @@ RetGuards(c, e) ==
           G("C10", e.code = "INVALID_ARGUMENT" =>
                        \/ (p.name \in DOMAIN ProjOf /\ p.topic \in DOMAIN ProjOf /\ ProjOf[p.name] # ProjOf[p.topic])
                        \/ ~p.push_http),
+          \* a subscription is never created on a topic of another project (projects are compared
+          \* as whole ids: `p1` is not `p1x`)
+          G("C10", e.code = "OK" =>
+                       ~(p.name \in DOMAIN ProjOf /\ p.topic \in DOMAIN ProjOf /\ ProjOf[p.name] # ProjOf[p.topic])),
           \* an unsupported push endpoint is a malformed field (C17): rejected, nothing created
           G("C17", ~p.push_http => e.code = "INVALID_ARGUMENT"),
           G("C17", ~p.push_http => ~\E w \in W : w.k = "m.cs" /\ w.name = p.name),
@@ -411,9 +415,35 @@ ModsOf(si, e) ==
        ELSE IF cands # {} THEN ModsWith(e, CHOOSE cd \in cands : TRUE)
        ELSE [i \in 1..Len(e.mods) |-> [ack |-> e.mods[i].ack, dl |-> e.mods[i].dl, lo |-> e.mods[i].dl, hi |-> e.mods[i].dl]]
 
+\* Every (ack id, seconds) pair some client request for this subscription asks for, with the time
+\* the request was sent.
+ReqPairs(si) ==
+    UNION {{[ack |-> pend[c].e.acks[j], secs |-> pend[c].e.secs, t |-> pend[c].e.t] : j \in 1..Len(pend[c].e.acks)} :
+              c \in {x \in DOMAIN pend : pend[x].e.op = "ModAck" /\ pend[x].e.sub = S[si].name /\ pend[x].e.secs >= 0}}
+    \cup
+    UNION {{[ack |-> g.acks[j], secs |-> g.secs, t |-> g.t] : j \in 1..Len(g.acks)} :
+              g \in {x \in gone : x.op = "ModAck" /\ x.sub = S[si].name /\ x.secs >= 0}}
+    \cup
+    UNION {UNION {{[ack |-> pend[c].ctrl[y].mods[j], secs |-> pend[c].ctrl[y].secs[j], t |-> pend[c].ctrl[y].t] :
+                      j \in 1..Len(pend[c].ctrl[y].mods)} :
+                  y \in {z \in 1..Len(pend[c].ctrl) : Len(pend[c].ctrl[z].secs) = Len(pend[c].ctrl[z].mods)}} :
+           c \in {x \in DOMAIN pend : pend[x].e.op = "StreamOpen" /\ pend[x].e.sub = S[si].name}}
+
+\* The modification the actor applied to one delivery is one that some request asked for THAT
+\* delivery: a nack where zero seconds were asked, else a deadline in the window of the seconds asked.
+Explained(si, e, i) ==
+    \E rp \in ReqPairs(si) :
+        /\ rp.ack = e.mods[i].ack
+        /\ IF rp.secs = 0 THEN e.mods[i].dl = None
+           ELSE e.mods[i].dl # None /\ e.mods[i].dl >= ModLo(rp.t, rp.secs) - Early /\ e.mods[i].dl <= ModHi(e.t, rp.secs)
+
 ModCallGuards(si, e) ==
     LET cands == ModCandidates(si, e) IN
-    { G("BIND", cands # {} \/ PushNack(si, e) \/ e.mods = <<>>),
+    { \* the list the actor applied is the list of one request; if it is not (an implementation may
+      \* merge or drop repeated ids), every single modification must still be one a request asked for
+      \* that delivery - seconds meant for one delivery applied to another end or stretch a lease the
+      \* client did not ask to change (C03, C05)
+      G("C03,C05", cands # {} \/ PushNack(si, e) \/ e.mods = <<>> \/ \A i \in 1..Len(e.mods) : Explained(si, e, i)),
       G("C05", cands # {} => \E cd \in cands : \A i \in 1..Len(e.mods) : (e.mods[i].dl = None) <=> (cd.secs[i] = 0)) }
 
 (***************************************************************************)
@@ -444,6 +474,8 @@ HttpGuards(e) ==
       G("C14", LastAnswer(si, e.m) \notin PushSuccess),
       \* JSON naming the subscription, base64 data, the message id (in both spellings)
       G("C14", e.method = "POST" /\ e.json /\ e.b64ok /\ e.same_id),
+      \* ... POSTed to the endpoint of the subscription it names (not to that of a sibling on the topic)
+      G("C14", "ep" \in DOMAIN e => e.ep = S[si].push),
       G("C09", e.m \in DOMAIN pubs),
       G("C09", e.m \in DOMAIN content => content[e.m] = [data |-> e.data, attrs |-> e.attrs]) }
 
